@@ -206,9 +206,33 @@ func mergeChecks(p uint32, items []uint64, triples bool, v viol, evals *int64) {
 		cs[s] = counterOf(p, items, s)
 		bs[s] = append([]byte{}, cs[s].GetBytes()...)
 	}
+	// the result of a merge is a counter of its own: offers to it must not reach an input and offers to
+	// an input must not reach it - for the merge of one counter with nothing, too
+	independent := func(desc string, res *hll.HyperLogLog, ins []*hll.HyperLogLog, sets []uint32) {
+		for _, it := range items {
+			res.OfferLong(it ^ 0x5bd1e995)
+		}
+		for i, in := range ins {
+			if !bytes.Equal(in.GetBytes(), bs[sets[i]]) {
+				v("merge:result-aliases-input", fmt.Sprintf("p=%d: %s: after offering further items to the result, input %d (subset %b) has changed: the result shares its registers", p, desc, i, sets[i]))
+				cs[sets[i]] = counterOf(p, items, sets[i])
+			}
+		}
+	}
+	for a := uint32(0); a < n; a++ {
+		*evals++
+		m0 := cs[a].Merge()
+		if !bytes.Equal(m0.GetBytes(), bs[a]) {
+			v("merge:single", fmt.Sprintf("p=%d: Merge() of the counter of subset %b alone differs from it", p, a))
+		}
+		independent("Merge() with no further counter", m0, []*hll.HyperLogLog{cs[a]}, []uint32{a})
+	}
 	for a := uint32(0); a < n; a++ {
 		for b := uint32(0); b < n; b++ {
 			*evals++
+			if a != b {
+				independent("Merge of two counters", cs[a].Merge(cs[b]), []*hll.HyperLogLog{cs[a], cs[b]}, []uint32{a, b})
+			}
 			m := cs[a].Merge(cs[b])
 			if !bytes.Equal(m.GetBytes(), bs[a|b]) {
 				v("merge:union", fmt.Sprintf("p=%d: Merge of the counters of subsets %b and %b differs from the counter of the union", p, a, b))
